@@ -7,6 +7,8 @@ import (
 	"os"
 	"os/exec"
 	"path/filepath"
+	"runtime"
+	"strconv"
 	"strings"
 	"sync"
 	"time"
@@ -38,7 +40,20 @@ var solvers = []solverSpec{
 	}},
 }
 
+// solverSlots bounds the number of solver processes running at once (VERIF_JOBS, default: number
+// of CPUs), so that a wall-clock solver timeout is not eaten by oversubscription when several
+// obligations race several solvers each.
+var solverSlots = func() chan struct{} {
+	n := runtime.NumCPU()
+	if v, err := strconv.Atoi(os.Getenv("VERIF_JOBS")); err == nil && v > 0 {
+		n = v
+	}
+	return make(chan struct{}, n)
+}()
+
 func runSolver(s solverSpec, file string, timeoutS int) (string, string, float64) {
+	solverSlots <- struct{}{}
+	defer func() { <-solverSlots }()
 	args := s.args(file, timeoutS)
 	ctx, cancel := context.WithTimeout(context.Background(), time.Duration(timeoutS+5)*time.Second)
 	defer cancel()
@@ -188,7 +203,7 @@ func solveCover(file string) *SolveResult {
 func solveRace(file string, timeoutS int) *SolveResult {
 	res := &SolveResult{File: file, Status: "unknown"}
 	t0 := time.Now()
-	st, out, el := runSolver(solvers[0], file, 2)
+	st, out, el := runSolver(solvers[0], file, 3)
 	res.Tried = append(res.Tried, fmt.Sprintf("%s:%s:%.2fs", solvers[0].name, st, el))
 	if st == "sat" || st == "unsat" {
 		res.Status, res.Solver, res.Output, res.Seconds = st, solvers[0].name, out, el
@@ -204,6 +219,17 @@ func solveRace(file string, timeoutS int) *SolveResult {
 	defer cancel()
 	for _, s := range solvers {
 		go func(s solverSpec) {
+			select {
+			case solverSlots <- struct{}{}:
+				defer func() { <-solverSlots }()
+			case <-ctx.Done():
+				ch <- ans{s.name, "unknown", "", 0}
+				return
+			}
+			if ctx.Err() != nil {
+				ch <- ans{s.name, "unknown", "", 0}
+				return
+			}
 			args := s.args(file, timeoutS)
 			c2, cancel2 := context.WithTimeout(ctx, time.Duration(timeoutS+5)*time.Second)
 			defer cancel2()
